@@ -3,8 +3,9 @@
 cd "$(dirname "$0")" || exit 2
 OUT=/var/tmp/verif-apalache-g-$$
 ok=0
+mkdir -p $OUT; export TMPDIR=$OUT
 run() { timeout -s KILL 900 apalache-mc check --init=Init --inv=$2 --length=0 --out-dir=$OUT $1 2>&1 | grep -q "EXITCODE: OK"; }
 run $1 $2 && echo "APALACHE-OK $1 $2 for all integers" || { echo "APALACHE-FAIL $1 $2"; ok=1; }
 run $1 $3 && { echo "APALACHE-FAIL negative control $3 was not refuted"; ok=1; } || echo "APALACHE-OK negative control $3 refuted"
-rm -rf $OUT
+rm -rf $OUT; rmdir tmp 2>/dev/null
 exit $ok
